@@ -106,7 +106,7 @@ def h_merge(nr, nc, smode, omode, md_cfg, fkind, zeros=1, light=False):
     if a.samp_md is None and ao.samp_md is None:
         exp.samp_md = None
     skip_md = (a.obs_md is None and ao.obs_md is None, a.samp_md is None and ao.samp_md is None)
-    fast = (md_self == 'none' or fkind == 'none') and smode == omode == 'union'
+    fast = ((md_self == 'none' and md_other == 'none') or fkind == 'none') and smode == omode == 'union'
     sig = dict(sample=smode, observation=omode, path='fast' if fast else 'general', mdcfg=f"{md_self}/{md_other}", f=fkind)
     e = None
     try:
